@@ -38,7 +38,7 @@ RULE = ("each run draws a body length (dense around 0, 1, 2^14+-2, 2^15, 2^16+-2
         "sizes and ciphertext cuts, and serves it over BOTH TLS backends. distinct = distinct "
         "(length, reader, buffer, cut-signature); non-trivial = body >= 1 byte and the reader or "
         "the network was not the default")
-PROBES = ["handler_finishes_after_request_timeout", "file_with_byte_order_mark", "status_21_to_29", "backpressure_pause_writing", "body_ge_16k", "body_ge_64k", "body_ge_6MiB", "half_closing_reader", "nauyaca_client_as_reader", "slow_reader", "bursty_reader",
+PROBES = ["stray_bytes_while_handler_pending", "handler_finishes_after_request_timeout", "file_with_byte_order_mark", "status_21_to_29", "backpressure_pause_writing", "body_ge_16k", "body_ge_64k", "body_ge_6MiB", "half_closing_reader", "nauyaca_client_as_reader", "slow_reader", "bursty_reader",
           "ciphertext_cut", "static_file", "start_server", "very_slow_reader_over_30s"]
 COMPONENTS = {
     "real": ["nauyaca.server.protocol._send_response", "nauyaca.server.tls_protocol (TLS pump)",
@@ -164,6 +164,9 @@ def serve_once(ch, backend, cfg, scratch):
         pscript = [("send", url.encode() + b"\r\n")]
         if cfg["idle_before_request"]:
             pscript = [("sleep", cfg["idle_before_request"])] + pscript
+        if cfg.get("stray"):
+            # bytes after the request line are ignored, however many and whenever they come
+            pscript += [("sleep", 0.01), ("send", b"s" * cfg["stray"])]
         if cfg.get("early_close"):
             # the reader says goodbye (close_notify, FIN) right behind its request and
             # then only reads
@@ -270,6 +273,12 @@ def run_one(ch):
         if slow:
             cfg["deadline"] += 40.0
             res.stats["handler_finishes_after_request_timeout"] += 1
+    if source == "handler" and cfg["async_handler"] and reader == "eager" and \
+            cfg["hdelay"] < 1.0 and ch.chance("stray", 0.15):
+        # stray bytes arrive while the (asynchronous) handler is still working
+        cfg["stray"] = ch.pick("strayn", [700, 1500, 5000])
+        cfg["hdelay"] = 0.3
+        res.stats["stray_bytes_while_handler_pending"] += 1
     if reader == "eager" and n <= 200000 and (source == "static" or
                                               (source == "handler" and not cfg["async_handler"])) \
             and ch.chance("early_close", 0.25):
